@@ -443,6 +443,7 @@ ProdTag(p) ==
     IF p.kind \notin ProdKinds THEN ""
     ELSE (IF \E i, j \in 1..Len(p.zs) : i # j /\ p.zs[i] = p.zs[j] /\ p.pm[i] # p.pm[j] THEN "-samez" ELSE "")
          \o (IF \E i \in 1..Len(p.zs) : p.zs[i] = QZero THEN "-neutral" ELSE "")
+         \o (IF p.kind \in {"eap", "dap"} /\ p.C # DefaultC(p.kind) THEN "-c" ELSE "")
 DHCase ==
     LET v == PointValue(dh) IN
     [ in  |-> [kind |-> dh.kind, pt |-> dh,
